@@ -10,7 +10,8 @@ STORE_FNS = re.compile(r"^(_mm(256)?_storeu_si(128|256)|_mm_storel_epi64|_mm(256
                        r"vst[1-4]q?_[usf]\d+(_x[234])?|v128_store|write_unaligned)$")
 
 LOADS = re.compile(r"^(_mm(256)?_loadu?_(si128|si256|ps|pd)|_mm_loadl_epi64|vld[1-4]q?_[usf]\d+"
-                   r"(_x[234])?|v128_load\w*|read_unaligned|load\w*|loadu\w*|loadl\w*)$")
+                   r"(_x[234])?|v128_load\w*|read_unaligned|load\w*|loadu\w*|loadl\w*|"
+                   r"get_unchecked(_mut)?|get|index|first|last)$")
 
 ARITH = re.compile(r"(_mul|_div_|_madd|_add_|_sub_|^vmul|^vdiv|^vmla|^vmls|^vadd|^vsub|"
                    r"^[iuf]\d+x\d+_(mul|div|add|sub|extmul|dot))")
